@@ -20,7 +20,7 @@ META = dict(
          "every slice boundary exactly and 1e-9 beside it, just below the top and mid-slice, for 6 slicings and 3 cell heights, and the slice "
          "assignment (by tag), the boundary rule, the thickness sum, the per-slice potential and the slicing-invariance of the projected "
          "potential are checked.",
-    note="Bound: <= 4 atoms, 16x12 grid, <= 15 slices. Tolerances: additivity 1e-5 of max V, projection invariance 1e-5.",
+    note="Bound: <= 4 atoms, 16x12 grid (thorough: also 15x9 and 24x20, Lobato and Kirkland tables, C / Si / Au test atoms), <= 15 slices. Tolerances: additivity 1e-5 of max V, projection invariance 1e-5.",
 )
 
 
@@ -51,14 +51,29 @@ def check(ctx):
             if isinstance(t, list) and abs(sum(t) - H) > 1e-9:
                 continue
             S.append({"space": "S", "H": H, "t": ti})
+    if not ctx.quick:  # thorough: the same spaces on an odd x odd and a larger grid, both tabulated parametrizations, light / heavy elements
+        extra = []
+        for gp, par in itertools.product(((16, 12), (15, 9), (24, 20)), ("lobato", "kirkland")):
+            if (gp, par) == ((16, 12), "lobato"):
+                continue
+            extra += [dict(c, gpts=list(gp), param=par) for c in A]
+            for el in ("C", "Si", "Au"):
+                extra += [dict(c, gpts=list(gp), param=par, elem=el) for c in S]
+        for el in ("Si", "Au"):
+            extra += [dict(c, elem=el) for c in S]
+        A = A + [c for c in extra if c["space"] == "A"]
+        S = S + [c for c in extra if c["space"] == "S"]
     ctx.run(A, "run_case", rule="A: every unordered 2-partition x projection", space="A additivity")
     ctx.run(S, "run_case", rule="S: per (cell height, slicing) all boundary z positions; non-trivial = more than one slice", space="S slicing")
+
+
+_CFG = {"gpts": (16, 12), "param": "lobato"}
 
 
 def build(atoms, proj="infinite", st=2.0):
     import abtem
 
-    return abtem.Potential(atoms, gpts=(16, 12), projection=proj, slice_thickness=st).build(lazy=False)
+    return abtem.Potential(atoms, gpts=tuple(_CFG["gpts"]), projection=proj, slice_thickness=st, parametrization=_CFG["param"]).build(lazy=False)
 
 
 def run_case(c):
@@ -67,6 +82,8 @@ def run_case(c):
     from mc.compare import err
 
     viol, worst, tr = [], 0.0, 0
+    _CFG.update(gpts=tuple(c.get("gpts", (16, 12))), param=c.get("param", "lobato"))
+    ELEM = c.get("elem", "C")
 
     def bad(key, msg):
         if sum(1 for v in viol if v["key"] == key) < 2:
@@ -90,7 +107,7 @@ def run_case(c):
     H = c["H"]
     t = THICK[c["t"]]
     st = H if t == "H" else (tuple(t) if isinstance(t, list) else t)
-    probe_atoms = ase.Atoms("C", positions=[(1.3, 1.1, H / 2)], cell=(4, 3, H), pbc=True)
+    probe_atoms = ase.Atoms(ELEM, positions=[(1.3, 1.1, H / 2)], cell=(4, 3, H), pbc=True)
     sl = SliceIndexedAtoms(probe_atoms, st)
     thick = tuple(sl.slice_thickness)
     ns = len(thick)
@@ -102,7 +119,7 @@ def run_case(c):
         zs += [(float(bounds[k]), k, "boundary"), (float(bounds[k]) + 1e-9, k, "above"), (float(bounds[k]) - 1e-9, k - 1, "below")]
     zs += [(H - 1e-11, ns - 1, "top"), (float(bounds[0] + thick[0] / 2), 0, "mid")]
     # (i) all test atoms in one structure: the slices partition them
-    allz = ase.Atoms("C%d" % len(zs), positions=[(0.3 + 0.2 * i, 1.0, z) for i, (z, _, _) in enumerate(zs)], cell=(4, 3, H), pbc=True)
+    allz = ase.Atoms("%s%d" % (ELEM, len(zs)), positions=[(0.3 + 0.2 * i, 1.0, z) for i, (z, _, _) in enumerate(zs)], cell=(4, 3, H), pbc=True)
     allz.set_tags(list(range(len(zs))))
     sl = SliceIndexedAtoms(allz, st)
     seen = []
@@ -122,14 +139,14 @@ def run_case(c):
     # (ii) potential level: each atom alone; slice `want` carries it, projection independent of the slicing
     ref_proj = None
     for z, want, kind in zs:
-        a = ase.Atoms("C", positions=[(1.3, 1.1, z)], cell=(4, 3, H), pbc=True)
+        a = ase.Atoms(ELEM, positions=[(1.3, 1.1, z)], cell=(4, 3, H), pbc=True)
         built = build(a, "infinite", st)
         arr = np.asarray(built.array)
         tr += 1
         sums = arr.sum(axis=(-2, -1))
         total = float(sums.sum())
         if ref_proj is None:
-            one = np.asarray(build(ase.Atoms("C", positions=[(1.3, 1.1, H / 2)], cell=(4, 3, H), pbc=True), "infinite", H).array)
+            one = np.asarray(build(ase.Atoms(ELEM, positions=[(1.3, 1.1, H / 2)], cell=(4, 3, H), pbc=True), "infinite", H).array)
             ref_proj = one.sum(axis=0)
         proj = arr.sum(axis=0)
         e = err(proj, ref_proj, 1e-5, atol=1e-9)
@@ -142,7 +159,7 @@ def run_case(c):
         if nz != [expect] and e <= 1.0:
             bad("potential/slice-of-atom/" + kind, "atom at z=%r (%s): potential appears in slices %r, expected [%d]" % (z, kind, nz, expect))
     # (iii) all atoms stacked in ONE column (same x, y): contributions that land on the same pixels inside a slice must add up
-    col = ase.Atoms("C%d" % len(zs), positions=[(1.3, 1.1, z) for z, _, _ in zs], cell=(4, 3, H), pbc=True)
+    col = ase.Atoms("%s%d" % (ELEM, len(zs)), positions=[(1.3, 1.1, z) for z, _, _ in zs], cell=(4, 3, H), pbc=True)
     cproj = np.asarray(build(col, "infinite", st).array).sum(axis=0)
     tr += 1
     e = err(cproj, len(zs) * ref_proj, 1e-5, atol=1e-9)
